@@ -45,7 +45,12 @@ theorem lookupAssoc_mem {α : Type} {n : String} {c : α} : ∀ {l : List (Strin
     · exact List.mem_cons_of_mem _ (lookupAssoc_mem h)
 
 /-- **a well-formed state is related to itself**, for every closure-body relation that is reflexive -/
-theorem SRel.ofWF {Q : QRel} {cx : Cx} (hq : QRefl Q) {σ : State N} (h : State.WF σ) (hI : cx.I N (idRel σ) σ σ) :
+theorem SRel.ofWF {Q : QRel} {cx : Cx} (hq : QRefl Q) {σ : State N} (h : State.WF σ) (hI : cx.I N (idRel σ) σ σ)
+    (hG : ∀ p ∈ cx.G N, σ.getGlobal p.1 = p.2 := by intro _ h; cases h)
+    (hF : ∀ p ∈ cx.F, FnGlobal σ p.1 p.2 := by intro _ h; cases h)
+    (hcl : ∀ c ∈ σ.closures, NoRefF (watD cx) c.body ∧ ∀ n ∈ cx.W,
+        lookupAssoc n c.env = lookupAssoc n cx.bindL ∧ lookupAssoc n c.env = lookupAssoc n cx.bindR := by
+      intro _ h; cases h) :
     SRel Q cx (idRel σ) σ σ where
   globals := forall2_self _ fun p hp => ⟨rfl, VRel.ofInRange (h.globals p hp)⟩
   trace := rfl
@@ -68,12 +73,19 @@ theorem SRel.ofWF {Q : QRel} {cx : Cx} (hq : QRefl Q) {σ : State N} (h : State.
     obtain ⟨rfl, hlt⟩ := hab
     have hm := List.getElem_mem hlt
     refine ⟨σ.closures[a], σ.closures[a], List.getElem?_eq_getElem hlt, List.getElem?_eq_getElem hlt,
-      forall2_self _ fun v hv => VRel.ofInRange (h.varargs _ hm v hv), [], hq [] _ (fun _ hx => by cases hx), ?_⟩
-    intro n _
-    cases hl : lookupAssoc n (σ.closures[a]).env with
-    | none => trivial
-    | some c => exact ⟨rfl, h.envs _ hm _ (lookupAssoc_mem hl)⟩
+      forall2_self _ fun v hv => VRel.ofInRange (h.varargs _ hm v hv), watD cx, hq _ _ (hcl _ hm).1, ?_, ?_, ?_⟩
+    · intro n _
+      cases hl : lookupAssoc n (σ.closures[a]).env with
+      | none => trivial
+      | some c => exact ⟨rfl, h.envs _ hm _ (lookupAssoc_mem hl)⟩
+    · exact fun n hn => List.mem_map_of_mem hn
+    · intro n hn
+      obtain ⟨m, hmW, e⟩ := List.mem_map.mp hn
+      cases e
+      exact (hcl _ hm).2 n hmW
   strlib := ⟨rfl, h.strlib⟩
+  ginv := fun p hp => ⟨hG p hp, hG p hp⟩
+  finv := fun p hp => ⟨hF p hp, hF p hp⟩
   front := ⟨Nat.zero_le _, Nat.zero_le _, Nat.zero_le _, Nat.zero_le _, Nat.zero_le _, Nat.zero_le _⟩
   pin := fun _ hp => by cases hp
   pinR := fun _ hp => by cases hp
